@@ -27,12 +27,16 @@ fn inject<const M1: usize, const E1: usize, const M2: usize, const E2: usize, co
     let m2: [u8; M2] = kani::any();
     let e2: [u8; E2] = kani::any();
     let t2: u32 = kani::any();
+    // the caller's output buffers hold arbitrary earlier content: the randomness must be
+    // a function of the triple alone
+    let i1: [u8; 32] = kani::any();
+    let i2: [u8; 32] = kani::any();
     ro_reset();
     let mg1 = MessageGenerator::new(SingleMeasurement::new(&m1), t1, &e1);
-    let mut r1 = [0u8; 32];
+    let mut r1 = i1;
     mg1.sample_local_randomness(&mut r1);
     let mg2 = MessageGenerator::new(SingleMeasurement::new(&m2), t2, &e2);
-    let mut r2 = [0u8; 32];
+    let mut r2 = i2;
     mg2.sample_local_randomness(&mut r2);
     let mut same = M1 == M2 && E1 == E2 && t1 == t2;
     if M1 == M2 && E1 == E2 {
